@@ -13,6 +13,26 @@ for f in conf:
         ours["findings"] += [x for x in theirs["findings"] if x["id"] not in ids]
         ours["fixed"] += [x for x in theirs.get("fixed", []) if x not in ours["fixed"]]
         json.dump(ours, open(p, "w"), indent=1)
+    elif f == "props.py":
+        ours = sh("git", "show", ":2:" + f); theirs = sh("git", "show", ":3:" + f)
+        def entries(text):
+            out = {}; lines = text.split("\n"); i = 0
+            while i < len(lines):
+                m = re.match(r'    "(C\d\d)": \{', lines[i])
+                if m:
+                    j = i
+                    while not re.match(r'    \},?\s*$', lines[j]): j += 1
+                    out[m.group(1)] = "\n".join(lines[i:j + 1]); i = j + 1
+                else: i += 1
+            return out
+        eo, et = entries(ours), entries(theirs)
+        add = [et[k] for k in sorted(et) if k not in eo]
+        lines = ours.rstrip("\n").split("\n")
+        idx = max(i for i, l in enumerate(lines) if l == "}")
+        lines = lines[:idx] + [a if a.rstrip().endswith(",") else a + "," for a in add] + lines[idx:]
+        text = "\n".join(lines) + "\n"
+        # hook commits / NOT_YET: keep ours
+        open(p, "w").write(text)
     elif f in ("MANIFEST.json",) or f.startswith("evidence/"):
         open(p, "w").write(sh("git", "show", ":2:" + f))
     else:
